@@ -5,13 +5,11 @@ package kv
 
 // C15: every configured node joins the ring with exactly its configured weight (no rescaling: AddWithWeight already takes a
 // percentage of the replica count), on the store's own fresh ring.
-// Assumed at the call (stated): the ring is in the state AddWithWeight requires - it is after NewConsistentHash (proved) and
-// stays so after each AddWithWeight (sortedness of the keys after append+sort is covered by the bounded stand-in for the ring).
+// The ring is in the state AddWithWeight requires throughout: after NewConsistentHash and after every AddWithWeight (proved).
 //@ func NewStore
 //@   property C15
 //@   ghost at after NewConsistentHash#0: d = ret
-//@   call AddWithWeight#0: assume hash.addReady(dispatcher)
 //@   call AddWithWeight#0: assert arg_weight == node.Weight && arg_recv == d && arg_node == cn
-//@   loop 0: invariant dispatcher == d
+//@   loop 0: invariant dispatcher == d && d != nil && hash.addReady(d)
 //@   ensures result.(clusterStore).dispatcher == d && fresh(d)
 //@   allocates
